@@ -649,7 +649,10 @@ class DateType(_CassandraType):
         try:
             # v is datetime
             timestamp_seconds = calendar.timegm(v.utctimetuple())
-            timestamp = timestamp_seconds * 1e3 + getattr(v, 'microsecond', 0) / 1e3
+            # exact integer arithmetic (a float sum rounds xx.xxx999 up to the next millisecond for far-future dates);
+            # sub-millisecond digits are dropped toward zero, as int() did
+            microseconds = timestamp_seconds * 1000000 + getattr(v, 'microsecond', 0)
+            timestamp = microseconds // 1000 if microseconds >= 0 else -(-microseconds // 1000)
         except AttributeError:
             try:
                 timestamp = calendar.timegm(v.timetuple()) * 1e3
